@@ -168,6 +168,8 @@ class SymArray(_ND):
             value = SymArray(to_sym(value, self._vd)).plain
         else:
             value = lift(value, k)
+        if k in "iu":
+            value = _int_store(value)
         if part is not None:
             part.write(key, value)
             return
@@ -302,6 +304,23 @@ class SymArray(_ND):
         return f"SymArray(shape={self.shape}, vdtype={self._vd})"
 
     __str__ = __repr__
+
+
+def _int_store(value):
+    """numpy semantics of storing into an integer array: truncation towards zero (constants); symbolic non-integers are not modelled"""
+    def one(x):
+        if isinstance(x, Alg):
+            if x.is_const():
+                c = x.cval()
+                return x if isinstance(c, int) else Alg.const(int(c))
+            raise UnsupportedSymbolic("symbolic value stored into an integer-typed array (numpy would truncate it)")
+        return x
+    if isinstance(value, _ND):
+        out = _np.empty(value.shape, dtype=object)
+        for idx in _np.ndindex(*value.shape):
+            out[idx] = one(value[idx])
+        return out
+    return one(value)
 
 
 class _Part:
